@@ -131,12 +131,38 @@ Qed.
 Definition no_digit_head (rest : pystr) : Prop :=
   match rest with c :: _ => digit_cons c = None | [] => True end.
 
+Lemma read_digits_cons c r :
+  read_digits (c :: r) = match digit_cons c with
+                         | Some k => let '(d, r') := read_digits r in (k d, r')
+                         | None => (Nil, c :: r)
+                         end.
+Proof. reflexivity. Qed.
+
 Lemma read_digits_cps : forall d rest, no_digit_head rest -> read_digits (cps_of_uint d ++ rest) = (d, rest).
 Proof.
-  induction d as [|d IH|d IH|d IH|d IH|d IH|d IH|d IH|d IH|d IH|d IH]; intros rest H;
-    try (cbn [cps_of_uint app read_digits]; match goal with |- context [digit_cons ?k] => change (digit_cons k) with (Some D0) || change (digit_cons k) with (Some D1) || change (digit_cons k) with (Some D2) || change (digit_cons k) with (Some D3) || change (digit_cons k) with (Some D4) || change (digit_cons k) with (Some D5) || change (digit_cons k) with (Some D6) || change (digit_cons k) with (Some D7) || change (digit_cons k) with (Some D8) || change (digit_cons k) with (Some D9) end;
-         cbv iota beta; rewrite (IH rest H); reflexivity).
-  cbn [cps_of_uint app]. destruct rest as [|c r]; [reflexivity|]. simpl in H. cbn [read_digits]. rewrite H. reflexivity.
+  induction d as [|d IH|d IH|d IH|d IH|d IH|d IH|d IH|d IH|d IH|d IH]; intros rest H.
+  - change (cps_of_uint Nil ++ rest) with rest. destruct rest as [|c r]; [reflexivity|]. simpl in H.
+    rewrite read_digits_cons, H. reflexivity.
+  - change (cps_of_uint (D0 d) ++ rest) with (48 :: (cps_of_uint d ++ rest)). rewrite read_digits_cons.
+    change (digit_cons 48) with (Some D0). cbv iota beta. rewrite (IH rest H). reflexivity.
+  - change (cps_of_uint (D1 d) ++ rest) with (49 :: (cps_of_uint d ++ rest)). rewrite read_digits_cons.
+    change (digit_cons 49) with (Some D1). cbv iota beta. rewrite (IH rest H). reflexivity.
+  - change (cps_of_uint (D2 d) ++ rest) with (50 :: (cps_of_uint d ++ rest)). rewrite read_digits_cons.
+    change (digit_cons 50) with (Some D2). cbv iota beta. rewrite (IH rest H). reflexivity.
+  - change (cps_of_uint (D3 d) ++ rest) with (51 :: (cps_of_uint d ++ rest)). rewrite read_digits_cons.
+    change (digit_cons 51) with (Some D3). cbv iota beta. rewrite (IH rest H). reflexivity.
+  - change (cps_of_uint (D4 d) ++ rest) with (52 :: (cps_of_uint d ++ rest)). rewrite read_digits_cons.
+    change (digit_cons 52) with (Some D4). cbv iota beta. rewrite (IH rest H). reflexivity.
+  - change (cps_of_uint (D5 d) ++ rest) with (53 :: (cps_of_uint d ++ rest)). rewrite read_digits_cons.
+    change (digit_cons 53) with (Some D5). cbv iota beta. rewrite (IH rest H). reflexivity.
+  - change (cps_of_uint (D6 d) ++ rest) with (54 :: (cps_of_uint d ++ rest)). rewrite read_digits_cons.
+    change (digit_cons 54) with (Some D6). cbv iota beta. rewrite (IH rest H). reflexivity.
+  - change (cps_of_uint (D7 d) ++ rest) with (55 :: (cps_of_uint d ++ rest)). rewrite read_digits_cons.
+    change (digit_cons 55) with (Some D7). cbv iota beta. rewrite (IH rest H). reflexivity.
+  - change (cps_of_uint (D8 d) ++ rest) with (56 :: (cps_of_uint d ++ rest)). rewrite read_digits_cons.
+    change (digit_cons 56) with (Some D8). cbv iota beta. rewrite (IH rest H). reflexivity.
+  - change (cps_of_uint (D9 d) ++ rest) with (57 :: (cps_of_uint d ++ rest)). rewrite read_digits_cons.
+    change (digit_cons 57) with (Some D9). cbv iota beta. rewrite (IH rest H). reflexivity.
 Qed.
 
 Lemma uint_beq_refl d : uint_beq d d = true.
@@ -162,13 +188,24 @@ Proof.
   - destruct (cps_of_uint_head _ (to_uint_nonnil (Z.to_N z))) as [c [r [E H]]]. exists c, r. split; [exact E | right; exact H].
 Qed.
 
+Lemma parse_number_cons c r :
+  parse_number (c :: r) =
+  if c =? 45 then
+    let '(d, r') := read_digits r in
+    if norm_ok d then Some (JInt (- Z.of_N (N.of_uint d)), r') else None
+  else
+    let '(d, r') := read_digits (c :: r) in
+    if norm_ok d then Some (JInt (Z.of_N (N.of_uint d)), r') else None.
+Proof. reflexivity. Qed.
+
 Lemma parse_number_print z rest : no_digit_head rest ->
   parse_number (print_int z ++ rest) = Some (JInt z, rest).
 Proof.
   intros H. unfold print_int. destruct (z <? 0)%Z eqn:Ez.
-  - cbn [app parse_number]. change (45 =? 45) with true. cbv iota.
-    rewrite (read_digits_cps _ rest H), norm_ok_to_uint, Unsigned.of_to. do 2 f_equal. lia.
+  - rewrite <- app_comm_cons, parse_number_cons. change (45 =? 45) with true. cbv iota.
+    rewrite (read_digits_cps _ rest H), norm_ok_to_uint, Unsigned.of_to. do 3 f_equal. lia.
   - destruct (cps_of_uint_head _ (to_uint_nonnil (Z.to_N z))) as [c [r [E Hc]]].
-    unfold parse_number. rewrite E. cbn [app]. replace (c =? 45) with false by lia. rewrite app_comm_cons, <- E.
-    rewrite (read_digits_cps _ rest H), norm_ok_to_uint, Unsigned.of_to. do 2 f_equal. lia.
+    rewrite E, <- app_comm_cons, parse_number_cons. replace (c =? 45) with false by lia.
+    rewrite app_comm_cons, <- E.
+    rewrite (read_digits_cps _ rest H), norm_ok_to_uint, Unsigned.of_to. do 3 f_equal. lia.
 Qed.
